@@ -267,6 +267,16 @@ func (p *poller) readWriteLoop() {
 			default: // for socket connections
 				c := p.getConn(fd)
 				if c != nil {
+					// The peer has only shut down its sending side: what it sent
+					// before that is still to be delivered before the close.
+					halfClosed := ev.Events&epollEventsError != 0 &&
+						ev.Events&(syscall.EPOLLERR|syscall.EPOLLHUP) == 0 && g.onRead == nil &&
+						(c.typ == ConnTypeTCP || c.typ == ConnTypeUnix)
+					if halfClosed && asyncReadEnabled {
+						// the read task closes the connection at the end of the stream.
+						atomic.StoreInt32(&c.readEOF, 1)
+					}
+
 					if ev.Events&epollEventsWrite != 0 {
 						switch onConnected, connErr := c.takeOnConnected(ev.Events); {
 						case onConnected == nil:
@@ -332,14 +342,14 @@ func (p *poller) readWriteLoop() {
 					}
 
 					if ev.Events&epollEventsError != 0 {
-						// The peer has only shut down its sending side: what it
-						// sent before that is still to be delivered.
-						if ev.Events&(syscall.EPOLLERR|syscall.EPOLLHUP) == 0 && g.onRead == nil &&
-							(c.typ == ConnTypeTCP || c.typ == ConnTypeUnix) {
+						if halfClosed {
 							if asyncReadEnabled {
-								// the read task closes the connection at the end of the stream.
-								atomic.StoreInt32(&c.readEOF, 1)
-								c.AsyncRead()
+								// one read task per event: the reading branch
+								// above has started it when the event carried
+								// a reading event.
+								if ev.Events&epollEventsRead == 0 {
+									c.AsyncRead()
+								}
 								continue
 							}
 							pbuf := g.borrow(c)
